@@ -1,4 +1,5 @@
 #!/bin/bash
+export VERIF_NO_PRUNE=1   # several trees are analysed over time / in parallel: keep their caches (tools/prune_cache.sh cleans up)
 # tools/seed_check.sh <ID> [props...]   apply /verif/seeded/<ID>/patch.diff to /repo, run checks, undo.
 # default props: all 20.  Prints per-check verdict and the rules that fired. Restores /verif/evidence.
 ID=$1; shift
